@@ -261,6 +261,7 @@ type c02Plan struct {
 	panics      bool
 	reads       bool              // the handler reads the request body
 	readAcross  bool              // ... and is in the middle of doing so when the deadline fires
+	blockedRead bool              // ... from a body that never delivers: the handler is stuck in Read when the deadline fires
 	guard       bool              // the timeout guard stands between the handler and the client (buffering writer)
 	info        bool              // the handler sends informational responses first
 	ctl         bool              // the handler uses Flush / ResponseController
@@ -549,6 +550,16 @@ loop:
 		case "Z":
 			e += s.N
 		case "R":
+			if q.BB {
+				// the body never delivers: the read blocks until the case is over, i.e. past the
+				// deadline the guard enforces (c02Valid admits this only behind the guard)
+				p.reads, p.blockedRead = true, true
+				if e <= p.d {
+					e = p.d + 1
+				}
+				waited = true
+				continue
+			}
 			// io.ReadFull in 16-byte pieces, sleeping N ticks after every piece that delivered bytes
 			pieces := (bodyLeft + c02ReadPiece - 1) / c02ReadPiece
 			bodyLeft = 0
@@ -804,7 +815,7 @@ func c02Valid(c c02Case) bool {
 			if q.Rt < 0 || q.Rt >= len(c.R) || q.Sv < 0 || q.Sv >= c.servers() || q.At < 0 || q.BL < 0 || q.CL < 0 || q.DL < 0 || id >= 90 || (q.GZ && q.BB) || q.TK < 0 || q.TK > 1 {
 				return false
 			}
-			seenWrite := false
+			seenWrite, afterBlock := false, false
 			for _, s := range q.P {
 				switch s.K {
 				case "H":
@@ -837,12 +848,21 @@ func c02Valid(c c02Case) bool {
 					}
 					seenWrite = true
 				case "Z":
-					if s.N < 0 {
+					if s.N < 0 || (afterBlock && s.N > 0) {
 						return false
 					}
 				case "R":
-					if s.N < 0 || q.BB {
-						return false // a body that never delivers cannot be read to its end
+					if s.N < 0 || afterBlock {
+						return false
+					}
+					if q.BB {
+						// a body that never delivers cannot be read to its end: the handler stays in Read until the
+						// case is over. Only behind the timeout guard is the owed response determined (the timeout
+						// response at the deadline); afterwards the program must not take virtual time any more
+						if c.timeoutTicks(q.Sv, q.Rt) <= 0 || q.Up == "websocket" {
+							return false
+						}
+						afterBlock = true
 					}
 				case "I":
 					if s.N != 100 && s.N != 102 && s.N != 103 {
@@ -1214,6 +1234,9 @@ func c02Judge(c c02Case, flat []c02Flat, obs []*c02Obs, maxCur []int32, cls map[
 		}
 		if p.reads {
 			cls["handler-reads-body"] = true
+		}
+		if p.blockedRead {
+			cls["handler-stuck-reading-never-delivering-body-at-deadline"] = true
 		}
 		who := fmt.Sprintf("request %d (route %d, arrival %dµs, plan d=%d f=%d panics=%v)", fl.id, q.Rt, fl.arrUS, p.d, p.f, p.panics)
 		t := c.timeoutTicks(q.Sv, q.Rt)
@@ -1608,8 +1631,12 @@ func c02GenCase(rt *rapid.T) c02Case {
 		}
 		if rapid.IntRange(0, 2).Draw(rt, "hasopts") > 0 {
 			for j, n := 0, rapid.IntRange(1, 4).Draw(rt, "nopts"); j < n; j++ {
-				switch k := rapid.SampledFrom([]string{"prefix", "prefix", "maxbytes", "maxbytes", "timeout", "timeout", "priority", "prefix", "maxbytes", "timeout", "priority", "jwt", "jwtt", "sig0"}).Draw(rt, "opt"); k {
+				switch k := rapid.SampledFrom([]string{"prefix", "prefix", "maxbytes", "maxbytes", "timeout", "timeout", "priority", "prefix", "maxbytes", "timeout", "priority", "jwt", "jwt", "sig0"}).Draw(rt, "opt"); k {
 				case "jwt", "jwtt":
+					// ("jwtt" = WithJwtTransition is understood by the interpreter but not drawn here: its token parser
+					// (api/token, outside this property) has a data race between concurrent requests on the unchanged
+					// tree, recorded by the lead, and both units that run this generator are built with -race; the
+					// plain-build rule rest-churn adds its route with WithJwtTransition instead)
 					if c02HasJwt(r.O) {
 						k = "priority"
 					}
@@ -1695,6 +1722,9 @@ func c02GenCase(rt *rapid.T) c02Case {
 				readable = q.BL
 			}
 			canWait := t > 0 || q.Cn >= 0 || q.DL > 0
+			if q.BB && t > 0 && q.Up != "websocket" && !benign {
+				readable = -2 // the program may try to read the never-delivering body (and stays in Read past the deadline)
+			}
 			q.P = c02GenProg(rt, t, canWait, benign || q.Up == "websocket", benign, readable)
 			q.RB = rapid.Bool().Draw(rt, "reusebuf")
 			if c.jwtKind(q.Rt) == "jwtt" && rapid.Bool().Draw(rt, "prevtoken") {
@@ -1776,6 +1806,9 @@ func c02GenProg(rt *rapid.T, t int, canWait, instant, benign bool, readable int)
 		if readable > 0 && !instant {
 			kinds = append(kinds, "R", "R")
 		}
+		if readable == -2 && !instant {
+			kinds = append(kinds, "R")
+		}
 		if i == n-1 || i > 1 {
 			kinds = append(kinds, "P")
 		}
@@ -1841,6 +1874,15 @@ func c02GenProg(rt *rapid.T, t int, canWait, instant, benign bool, readable int)
 			elapsed += z
 			p = append(p, c02Step{K: "Z", N: z})
 		case "R":
+			if readable == -2 {
+				// blocks until the case is over; nothing after it may take virtual time
+				p = append(p, c02Step{K: "R"})
+				readable, instant, canWait = 0, true, false
+				if elapsed <= d {
+					elapsed = d + 1
+				}
+				continue
+			}
 			pieces := (readable + c02ReadPiece - 1) / c02ReadPiece
 			z := c02Rel(rt, d, elapsed, "rz") // total reading time aimed at, relative to the deadline
 			per := z / pieces
